@@ -563,6 +563,14 @@ func c15Property(rt *rapid.T) {
 				remaining -= sz
 			}
 		}
+		// open finding DEP-lz4-offset-wrap-65536: what the LIBRARY compresses with LZ4 can come out undecodable when the
+		// input is longer than 64 KiB (the dependency writes match distances >= 65536 modulo 65536). C01/C06/C08 judge
+		// that on the exact block; here such exchanges are excluded by construction and counted.
+		if spec.Compression == "LZ4" && ((spec.Topology != "raw-lib" && len(ex.Req) > 65536) || (spec.Topology != "lib-raw" && len(ex.Resp) > 65536)) {
+			rec.Excluded("DEP-lz4-offset-wrap-65536")
+			i--
+			continue
+		}
 		totalLen += len(ex.Req) + len(ex.Resp)
 		spec.Exchanges = append(spec.Exchanges, ex)
 	}
